@@ -1,4 +1,4 @@
 From Coq Require Import Extraction ExtrOcamlBasic.
 From CAres.Core Require Import LifecycleMonitor Lifecycle Lifecycle_fuel_top.
 Extraction Language OCaml.
-Extraction "../ocaml/gen/LifecycleModel.ml" callback_monitor violations run step init_state all_fixed pinned host_inv_check fuel_bound_tr.
+Extraction "../ocaml/gen/LifecycleModel.ml" callback_monitor violations status_violations run step init_state all_fixed pinned host_inv_check fuel_bound_tr.
